@@ -214,6 +214,8 @@ def _eval_node(t, a, env):
         name = t.decl().name()
         if not a:
             if name not in env:
+                if name.startswith("uninit"):
+                    return 0.0
                 if name.startswith("nan!"):
                     return math.nan
                 if name.startswith("posinf!"):
